@@ -1,6 +1,6 @@
 """Pool discipline rules P8..P16 and the E-WAKER lint (DESIGN.md 4.2, 4.4)."""
 from core import (norm, L_call, L_variant, arms, assigns_to_return, const_of, CallSite, AbsPaths, sig,
-                  closure_arg_of, is_transparent, L_opt)
+                  closure_arg_of, is_transparent, L_opt, L_poll, carriers)
 from mir import op_place, place_str, op_str
 
 OPT_TAKE = ("std::option::Option::take", "core::option::Option::take")
@@ -74,22 +74,23 @@ def waker_rule(ctx, fn, label=None):
             ctx.bad("%s|pending-without-context" % label, "Poll::Pending built in a function that has no Context", fn.where(pend[0]))
         return 0
 
-    def is_pending_of_polled(lab):
-        if lab.kind != "variant" or lab.variants != {"Pending"}:
-            return False
-        site = fn.call_defining(lab.place["l"])
-        if site is None:
-            return False
-        for a in site.args:
-            rr = fn.roots(a, through_calls=False)
-            if any(r.kind == "arg" and getattr(r, "index", None) == cx for r in rr):
-                return True
-        return False
+    # polls that were handed the task context (they register the waker when they answer Pending)
+    polled = set()
+    for c in fn.calls():
+        if any(any(r.kind == "arg" and getattr(r, "index", None) == cx for r in fn.roots(a, through_calls=False)) for a in c.args):
+            polled.add(c.bb)
+    is_pending_of_polled = L_poll(fn, False, polled)
 
     n = 0
-    for b in sorted(set(pend)):
+    for (b, i, s) in fn.aggregates("Poll", "Pending"):
         n += 1
-        ok, w = fn.guarded(b, is_pending_of_polled)
+        # where the Pending value is *chosen* matters, not where it is built (it may be prepared eagerly and returned
+        # only on the Pending edge): some block on its way to the return place must be behind the edge
+        ok, w = False, None
+        for (cb, cl) in carriers(fn, b, s["p"]["l"]):
+            ok2, w2 = fn.guarded(cb, is_pending_of_polled)
+            ok = ok or ok2
+            w = w or w2
         ctx.check(ok, "%s|pending-has-waker" % label,
                   "Pending is returned only on the Pending edge of a poll that received the task context (waker registered)",
                   "Pending can be returned without any callee having registered the waker (lost wake-up)", fn.where(b), fn.path_desc(w))
@@ -114,66 +115,61 @@ def E_WAKER_pool(ctx, facts):
 # ------------------------------------------------------------------ P12
 
 def P12(ctx, facts):
-    """Waiting::poll typestate."""
-    f = facts.unit(facts.method("client::pool::checkout::Waiting", "Future", "poll"))
+    """Waiting::poll as a decision table.  Its (expanded) body is evaluated abstractly for every state of the waiter and
+    every outcome of the channel poll; the answer and whether the receiver is given up are read off.  The table is the
+    typestate the pool relies on - whatever the shape of the code (nested matches, eager `(poll, unresolved)` pairs,
+    helpers): Idle/Pending -> NotReady and the receiver is KEPT (a released connection can still pre-empt the dial);
+    Connecting/Pending -> Pending (a pure waiter waits); a resolved channel -> Connected / Closed and the receiver is given up
+    (never polled again after completion); NoPool -> Closed."""
+    f = facts.unit(facts.method("client::pool::checkout::Waiting", "Future", "poll"), expand=True)
     ctx.touched(f)
-    ap = AbsPaths(f)
     sets = [c for c in f.calls("std::pin::Pin::set", "core::pin::Pin::set")]
     closes = [c for c in f.calls("tokio::sync::oneshot::Receiver::close")]
     discard = {c.bb for c in sets} | {c.bb for c in closes}
     ctx.floor("Waiting::poll|reset-sites", len(sets), 1, "Pin::set(self, ..) sites in Waiting::poll")
+    ap0 = AbsPaths(f)
     for c in sets:
-        v = ap.values_at(c.bb, c.args[1]) if len(c.args) > 1 else {None}
+        v = ap0.values_at(c.bb, c.args[1]) if len(c.args) > 1 else {None}
         ctx.check(all(x is not None and x[0] == "variant" and x[1] == "NoPool" for x in v), "Waiting::poll|reset-to-NoPool",
                   "the only state written is Waiting::NoPool", "Waiting::poll writes state %s" % sorted(map(str, v)), c.where())
-    nr = f.aggregates("client::pool::checkout::WaitingPoll", "NotReady")
-    ctx.floor("Waiting::poll|NotReady-sites", len(nr), 1, "constructions of WaitingPoll::NotReady")
-    recv_poll = ("tokio::sync::oneshot::Receiver", )
-    for (b, i, s) in nr:
+    RX = ("const", "RX")
+    conn = ("const", "CONN")
+    chan = {"Pending": ("variant", "Pending", ()),
+            "Ok": ("variant", "Ready", ((0, ("variant", "Ok", ((0, conn),))),)),
+            "Err": ("variant", "Ready", ((0, ("variant", "Err", ((0, ("const", "E")),))),))}
+    want = {("Idle", "Pending"): ("Ready:NotReady", False), ("Idle", "Ok"): ("Ready:Connected", True), ("Idle", "Err"): ("Ready:Closed", True),
+            ("Connecting", "Pending"): ("Pending", False), ("Connecting", "Ok"): ("Ready:Connected", True), ("Connecting", "Err"): ("Ready:Closed", True),
+            ("NoPool", None): ("Ready:Closed", None)}
+    rows = 0
+    for (state, outcome), (ans, gives_up) in want.items():
+        st_val = ("variant", state, ((0, RX),) if state != "NoPool" else ())
+        oracles = [(r"::_::<impl .*Waiting.*>::project$|Waiting.*::project$", lambda site, vals, st_val=st_val: st_val)]
+        if outcome is not None:
+            oracles.append((r"Future>::poll$|Future::poll$", lambda site, vals, outcome=outcome: chan[outcome]))
         try:
-            reached, n = ap.explore(b)
+            outs = AbsPaths(f, oracles=oracles).outcomes(observe_blocks=discard)
         except AbsPaths.Undecided as e:
-            ctx.undecided("Waiting::poll|NotReady-keeps-receiver", str(e), f.where(b))
+            ctx.undecided("Waiting::poll|row|%s,%s" % (state, outcome), str(e), f.where())
             continue
-        hit = sorted(reached & discard)
-        ctx.check(not hit, "Waiting::poll|NotReady-keeps-receiver",
-                  "after a NotReady outcome no feasible path discards the receiver (%d abstract states explored)" % n,
-                  "a NotReady outcome can reach a state reset / receiver close: the waiting request would never take a released connection",
-                  f.where(hit[0]) if hit else None, "from bb%d to bb%s" % (b, hit))
-        ok1, w1 = f.guarded(b, L_variant(f, "Idle"))
-        ctx.check(ok1, "Waiting::poll|NotReady-only-Idle", "NotReady is produced only in the Idle state (the checkout dials itself)",
-                  "NotReady can be produced outside the Idle arm", f.where(b), f.path_desc(w1))
-        ok2, w2 = f.guarded(b, lambda lab: lab.kind == "variant" and lab.variants == {"Pending"} and
-                            (f.call_defining(lab.place["l"]) is not None and f.call_defining(lab.place["l"]).matches(r"oneshot::Receiver.*Future>::poll|Future::poll")))
-        ctx.check(ok2, "Waiting::poll|NotReady-on-channel-Pending", "NotReady is produced on the Pending edge of the channel poll (waker registered with the channel)",
-                  "NotReady produced without polling the channel", f.where(b), f.path_desc(w2))
-    # Connected / Closed outcomes of a polled receiver => receiver discarded before return
-    for var in ("Connected", "Closed"):
-        for (b, i, s) in f.aggregates("client::pool::checkout::WaitingPoll", var):
-            polled, _ = f.guarded(b, lambda lab: lab.kind == "variant" and lab.variants == {"Ready"})
-            if not polled:
-                continue  # the NoPool arm: nothing to discard
-            try:
-                reached, n = ap.explore(b, stop_blocks=discard)
-            except AbsPaths.Undecided as e:
-                ctx.undecided("Waiting::poll|%s-resets" % var, str(e), f.where(b))
-                continue
-            rets = [r for r in f.returns if r in reached]
-            ctx.check(not rets, "Waiting::poll|%s-resets" % var,
-                      "after the channel resolved (%s) every feasible path resets the state before returning (no poll-after-completion)" % var,
-                      "a %s outcome can return with the completed receiver still installed" % var, f.where(b))
-    # Connecting arm: Pending stays Pending (pure waiter waits)
-    sw, regions = arms(f, "WaitingProjected")
-    if "Connecting" not in regions:
-        ctx.undecided("Waiting::poll|Connecting-arm", "could not isolate the Connecting arm (%s)" % sorted(regions))
-    else:
-        reg = regions["Connecting"]
-        bad = [b for (b, i, s) in nr if b in reg]
-        ctx.check(not bad, "Waiting::poll|Connecting-never-NotReady", "a pure waiter never reports NotReady (it has no dial of its own)",
-                  "Connecting arm can report NotReady")
-        pend = [b for (b, i, s) in f.aggregates("Poll", "Pending") if b in reg]
-        ctx.check(len(pend) >= 1, "Waiting::poll|Connecting-pending", "the Connecting arm returns Pending while the channel is pending",
-                  "the Connecting arm has no Pending outcome")
+        rows += 1
+
+        def show(v):
+            if v is None or v[0] != "variant":
+                return "?"
+            if v[1] == "Ready":
+                inner = dict(v[2]).get(0)
+                return "Ready:%s" % (inner[1] if inner is not None and inner[0] == "variant" else "?")
+            return v[1]
+        got = sorted({(show(v), bool(vis)) for (v, vis) in outs})
+        exp = [(ans, gives_up)] if gives_up is not None else None
+        ok = (got == exp) if exp is not None else (sorted({g[0] for g in got}) == [ans])
+        ctx.check(ok, "Waiting::poll|row|%s,%s" % (state, outcome),
+                  "%s waiter, channel %s -> %s%s" % (state, outcome, ans, "" if gives_up is None else (", receiver given up" if gives_up else ", receiver kept")),
+                  "%s waiter, channel %s gives %s (answer, receiver given up); expected %s" % (state, outcome, got, (ans, gives_up)), f.where())
+    ctx.floor("Waiting::poll|table-rows", rows, 7, "scenarios evaluated")
+    # the channel is polled with the task context (waker registration is E-WAKER's rule)
+    polls = [c for c in f.calls() if norm(c.decl or c.name).endswith("::poll")]
+    ctx.floor("Waiting::poll|channel-poll", len(polls), 1, "poll of the oneshot receiver")
 
 
 # ------------------------------------------------------------------ P13 / C03.1
